@@ -152,6 +152,23 @@ pub fn fq12_alpha(tier: Tier, seed: u64) -> Vec<F12> {
         }
         let c = g();
         v.push(F12::from_coeffs(&vec![c; 12]));
+        // near-identity shapes: 1 + c w^j and -1 + c w^j for every j, and 1 plus one full generic Fq4 block: an
+        // is_one / is_zero style test that inspects only part of the coefficients takes these for the identity
+        for j in 1..12 {
+            for (base, c) in [(N::one(), N::one()), (N::one(), g()), (p - n(1), g())] {
+                let mut f = F12::zero();
+                f.0[0] = base;
+                f.0[j] = c;
+                v.push(f);
+            }
+        }
+        for i in 1..3 {
+            let mut f = F12::one();
+            for j in 0..4 {
+                f.0[i + 3 * j] = g();
+            }
+            v.push(f);
+        }
     }
     let mut seen = std::collections::HashSet::new();
     v.retain(|f| seen.insert(f.clone()));
@@ -230,6 +247,15 @@ pub fn fq4_alpha(tier: Tier, seed: u64) -> Vec<F12> {
         f.0[3] = n(2);
         f.0[9] = n(1);
         v.push(f);
+    }
+    // near-identity shapes 1 + c w^(3k), -1 + c w^(3k)
+    for k in 1..4 {
+        for (base, c) in [(N::one(), N::one()), (N::one(), g()), (p - n(1), g())] {
+            let mut f = F12::zero();
+            f.0[0] = base;
+            f.0[3 * k] = c;
+            v.push(f);
+        }
     }
     // all four coefficients with STORED value q-1-i: the four-term accumulator reaches its top band
     let ri = rinv(p);
